@@ -48,6 +48,7 @@ pub fn run(id: &str, tier: Tier, seed: u64) -> Option<i32> {
         "C07" => Some(c07::run(tier, seed)),
         "C08" => Some(c08::run(tier, seed)),
         "C09" => Some(c09::run(tier, seed)),
+        "C10" => Some(c10::run(tier, seed)),
         "C11" => Some(c11::run(tier, seed)),
         "C12" => Some(c12::run(tier, seed)),
         "C13" => Some(c13::run(tier, seed)),
